@@ -329,8 +329,20 @@ func (h *handle) wipe() (clean bool, why string) {
 		for _, p := range found {
 			h.tracked[string(p.Key)] = struct{}{}
 		}
+		keys := make([]string, 0, len(h.tracked))
 		for k := range h.tracked {
-			if p := guard(func() string { return okErr(h.kv.Delete([]byte(k))) }); p != "ok" {
+			keys = append(keys, k)
+		}
+		sort.Strings(keys)
+		// delete what the scan or a point read still sees (every write is a synced
+		// commit on most drivers: do not issue needless ones)
+		present, problem := pointState(h.kv, keys)
+		if problem != "" {
+			return false, problem
+		}
+		for _, p := range append(found, present...) {
+			k := p.Key
+			if p := guard(func() string { return okErr(h.kv.Delete(k)) }); p != "ok" {
 				return false, fmt.Sprintf("Delete(%q): %s", k, p)
 			}
 		}
@@ -338,11 +350,6 @@ func (h *handle) wipe() (clean bool, why string) {
 		if problem != "" {
 			return false, "scan: " + problem
 		}
-		keys := make([]string, 0, len(h.tracked))
-		for k := range h.tracked {
-			keys = append(keys, k)
-		}
-		sort.Strings(keys)
 		leftPoint, problem := pointState(h.kv, keys)
 		if problem != "" {
 			return false, problem
@@ -1170,6 +1177,12 @@ func checkContents(t pbt.TB, c Case, h *handle, model *memkv.Store, before []mem
 	// listed open finding: repair the contents key by key and verify
 	for _, k := range keys {
 		wv, werr := model.Get([]byte(k))
+		var gv []byte
+		var gerr error
+		if guard(func() string { gv, gerr = h.kv.Get([]byte(k)); return "" }) == "" &&
+			(gerr == nil) == (werr == nil) && bytes.Equal(gv, wv) {
+			continue // this key is as it should be
+		}
 		res := guard(func() string {
 			if werr != nil {
 				return okErr(h.kv.Delete([]byte(k)))
